@@ -33,7 +33,6 @@ ToDecBug(n) == IF n # 0 /\ n % 10 = 0 /\ n > 0 THEN ToDecNat(n \div 10) ELSE ToD
 Near(S, k) == UNION {{x + d : d \in (-k)..k} : x \in S}
 CpBoundaries == {1, 127, 128, 2047, 2048, 4095, 4096, 55295, 57344, 65533, 65535, 65536, 131071, 262143,
                  262144, 1048575, 1048576, 1114111}
-CpSet == {cp \in 1..1114111 : IsScalar(cp) /\ (cp % Step = 0 \/ cp \in Near(CpBoundaries, 3))}
 PairSet == {cp \in Near(CpBoundaries, 1) : IsScalar(cp)}
 
 Sample5 == {0, 1, 127, 128, 255}
@@ -41,25 +40,29 @@ Sample3 == {0, 128, 255}
 
 IntBoundaries == {0, 9, 10, 99, 100, 127, 128, 255, 256, 32767, 32768, 65535, 65536, 99999, 100000,
                   16777215, 16777216, 999999999, 1000000000, 2147483646, 2147483647}
-DecInts == ((-DecRange)..DecRange) \cup Near(IntBoundaries, 0) \cup {-x : x \in IntBoundaries}
 
-Inputs ==
-  CASE Mode = "bytes" ->
-         {[k |-> "int", n |-> 1, v |-> v] : v \in 0..255}
-         \cup {[k |-> "int", n |-> 2, v |-> v] : v \in 0..65535}
-         \cup {[k |-> "int", n |-> 3, v |-> v * 255 + 7] : v \in 0..65535}
-         \cup {[k |-> "int", n |-> 4, v |-> v * 32768 + (v % 251)] : v \in 0..65535}
-         \cup {[k |-> "digits", d |-> d] : d \in [1..4 -> Sample5]}
-         \cup {[k |-> "digits", d |-> d] : d \in [1..8 -> Sample3]}
-    [] Mode = "utf8" ->
-         {[k |-> "cp", cp |-> cp] : cp \in CpSet}
-         \cup {[k |-> "pair", a |-> a, b |-> b] : a \in PairSet, b \in PairSet}
-    [] Mode = "dec" ->
-         {[k |-> "int", v |-> v] : v \in DecInts}
-         \cup {[k |-> "big", x |-> [s |-> s, m |-> Strip(d)]] :
-                 s \in {0, 1}, d \in ([1..4 -> Sample5] \cup [1..8 -> Sample3]) \ {<<0, 0, 0, 0>>, <<0, 0, 0, 0, 0, 0, 0, 0>>}}
+\* (disjunctions of \E rather than one big union: TLC enumerates each disjunct directly)
+InitBytes ==
+  \/ \E v \in 0..255 : inp = [k |-> "int", n |-> 1, v |-> v]
+  \/ \E v \in 0..65535 : inp = [k |-> "int", n |-> 2, v |-> v]
+  \/ \E v \in 0..65535 : inp = [k |-> "int", n |-> 3, v |-> v * 255 + 7]
+  \/ \E v \in 0..65535 : inp = [k |-> "int", n |-> 4, v |-> v * 32768 + (v % 251)]
+  \/ \E d \in [1..4 -> Sample5] : inp = [k |-> "digits", d |-> d]
+  \/ \E d \in [1..8 -> Sample3] : inp = [k |-> "digits", d |-> d]
 
-Init == inp \in Inputs
+InitUtf8 ==
+  \/ \E cp \in 1..1114111 : /\ IsScalar(cp) /\ cp % Step = 0
+                             /\ inp = [k |-> "cp", cp |-> cp]
+  \/ \E cp \in Near(CpBoundaries, 3) : IsScalar(cp) /\ inp = [k |-> "cp", cp |-> cp]
+  \/ \E a \in PairSet, b \in PairSet : inp = [k |-> "pair", a |-> a, b |-> b]
+
+InitDec ==
+  \/ \E v \in (-DecRange)..DecRange : inp = [k |-> "int", v |-> v]
+  \/ \E v \in IntBoundaries : inp = [k |-> "int", v |-> v] \/ inp = [k |-> "int", v |-> -v]
+  \/ \E s \in {0, 1}, d \in [1..4 -> Sample5] : d # <<0, 0, 0, 0>> /\ inp = [k |-> "big", x |-> [s |-> s, m |-> Strip(d)]]
+  \/ \E s \in {0, 1}, d \in [1..8 -> Sample3] : d # <<0, 0, 0, 0, 0, 0, 0, 0>> /\ inp = [k |-> "big", x |-> [s |-> s, m |-> Strip(d)]]
+
+Init == CASE Mode = "bytes" -> InitBytes [] Mode = "utf8" -> InitUtf8 [] Mode = "dec" -> InitDec
 Next == UNCHANGED inp
 Spec == Init /\ [][Next]_inp
 
